@@ -305,6 +305,8 @@ class Mirror:
             if df[1] == "typeddict" and df[2] != "total=False" and any(f not in kw for f in fields):
                 raise ModelRaise("EType")
             return self._construct(lambda: cls(**kw))
+        if k == "wrapref":
+            return self.unm(d[1], x)
         if k in ("newtype", "alias"):
             return self.unm(d[2], x)
         if k in ("final", "classvar"):
@@ -355,6 +357,8 @@ class Mirror:
                 if type(a) is str and a in fields:
                     kw[a] = self.mar(fields[a], b)
             return kw
+        if k == "wrapref":
+            return self.mar(d[1], x)
         if k in ("newtype", "alias"):
             return self.mar(d[2], x)
         if k in ("final", "classvar"):
